@@ -91,7 +91,6 @@ TRestore ==
 E2EOK(r) ==
     LET rc == r.received IN
     /\ r.recovered = lastOk                                  \* what RestoreSession decided (TRestore checked that decision against the window)
-    /\ (r.expectRecovered /\ r.comfortable) => r.recovered    \* well inside the window with a valid pid and offset: restored
     /\ r.intact                                              \* binary events arrive (also when replayed) with their attachments
     /\ r.clientRecovered = r.recovered                       \* what the client API reports is this connect's verdict
     /\ r.recovered => /\ r.sameSid /\ r.roomsOk
